@@ -108,7 +108,7 @@ PROPS["C08"] = {
 }
 
 PROPS["C10"] = {
-    "test": "TestC10", "level": "exploration", "registered": True, "engine": "sim",
+    "test": "TestC10", "level": "exploration", "registered": True, "engine": "sim", "race_pass": {"env": {"VERIF_C10_ONLY_KIND": "concurrent"}, "shards": 4}, "race_is_violation": True, "race_only_matching": r"RolloutController|rollout_controller\.go",
     "shards_quick": 8, "shards_thorough": 16, "timeout": 900,
     "technique": "runtime monitor with metamorphic oracles over observed routing decisions (stickiness, monotonicity in the percentage, allowlist, share) and a history model for set/stop/redeploy",
     "level_text": "For generated well-formed cookie values all 101 percentages are set one after the other on the real router and the side that answered is observed: the same answer on repetition, included at p implies included at every p' > p, included at 100, allowlisted values always on the rollout side, requests without the cookie always active. Over 5000 (thorough 20000) random 16-hex values the included share at 13 percentages must be within 3 points. Hostile Cookie headers are judged by the metamorphic relations only. Histories of rollout deploy / set / stop / redeploy are judged by an exact model (100%, 0%+allowlist).",
